@@ -16,7 +16,7 @@ def _copy_t(t, **kw):
 
 
 def _copy_m(m, **kw):
-    c = Member(m.name, m.type, m.optional, m.default, m.has_default, m.ext)
+    c = Member(m.name, m.type, m.optional, m.default, m.has_default, m.ext, m.default_text)
     for k, v in kw.items():
         setattr(c, k, v)
     return c
